@@ -166,10 +166,12 @@ def specs(tier):
 
 def regimes(tier, nclients):
     if tier == "thorough":
-        return [{"name": "all-interleavings", "depth": 30 if nclients <= 2 else 24, "preempt": None, "timeout": 900},
-                {"name": "context-bounded", "depth": 44 if nclients <= 2 else 36, "preempt": 3, "timeout": 900}]
-    return [{"name": "all-interleavings", "depth": 24 if nclients <= 2 else 22, "preempt": None, "timeout": 200},
-            {"name": "context-bounded", "depth": 34 if nclients <= 2 else 28, "preempt": 2, "timeout": 200}]
+        return [{"name": "all-interleavings", "depth": 30 if nclients <= 2 else 24, "preempt": None, "timeout": 1800},
+                {"name": "context-bounded", "depth": 44 if nclients <= 2 else 36, "preempt": 3, "timeout": 1800}]
+    # (z3 time-outs are wall-clock: the slowest single query takes 60-125 s on an idle sandbox, so 200 s
+    # left less than 2x; an `unsat` returns as soon as it is found, whatever the limit)
+    return [{"name": "all-interleavings", "depth": 24 if nclients <= 2 else 22, "preempt": None, "timeout": 900},
+            {"name": "context-bounded", "depth": 34 if nclients <= 2 else 28, "preempt": 2, "timeout": 900}]
 
 
 def run(report, tier):
